@@ -26,6 +26,9 @@ open EzdxfVerif.Flatten EzdxfVerif.FlattenPath EzdxfVerif.Gen.FlattenKernels Pro
     poly2d|<0|1>|<vertices>                      -> state of tools.add_2d_polyline for points without bulges
     prelude|<start>|<end>|<param_span>|<segments>   -> `none` or `param,end_param,delta` of the ellipse prelude
     edges|<ops of segment 1>^<ops of segment 2>^…    -> state of from_hatch_edge_path for these edge segments
+    npstate|<ops>       -> NumpyPath2d(path): commands!vertices # sub_paths() # reverse() # has_sub_paths # to_path() state
+    npflat|<py|pyx>|<distance>|<segments>|<ops>   -> NumpyPath2d(path).flattening
+    npext|<ops>^<ops>^…  -> NumpyPath2d(first).extend([NumpyPath2d(p) for the others])
     state = start_index,…!commands,…!has_sub_paths!vertices,…
 -/
 
@@ -176,6 +179,8 @@ def showPErr : PErr → String
   | .curve e => showErr e
   | .stopIteration => "err RuntimeError"
   | .valueError => "err ValueError"
+  | .indexError => "err IndexError"
+  | .invalidCommand => "err ValueError"
 
 def cfgOf (twin : String) : Option FlatCfg :=
   match twin with
@@ -227,6 +232,36 @@ def runFromV (close vs : String) : String :=
   | some vs => showPath (fromVertices vClose zeroV vs (close == "1"))
   | none => "bad-op vertices"
 
+/-! ### NumpyPath2d -/
+
+def showNp (np : NpPath V3) : String :=
+  showNatsC np.commands ++ "!" ++ ",".intercalate (np.vertices.map showV3)
+
+def npToPath (np : NpPath V3) (p : Path V3) : Path V3 :=
+  -- `to_path()` = `Path.from_vertices_and_commands`: same elements, flag recomputed from the commands
+  ⟨proj2 p.start, p.elems.map (Elem.mapV proj2), np.commands.contains 4⟩
+
+def runNpState (ops : String) : String :=
+  match runOps ops with
+  | none => "bad-op ops"
+  | some (r, _) =>
+    let np := NpPath.ofPath proj2 r.p
+    showNp np ++ "#" ++ "|".intercalate ((npSubPaths np).map showNp) ++ "#" ++ showNp (npReverse np) ++ "#" ++
+      (if np.hasSub then "1" else "0") ++ "#" ++ showPath (npToPath np r.p)
+
+def runNpFlat (twin : String) (d : Rat) (segs : Nat) (ops : String) : String :=
+  match cfgOf twin, runOps ops with
+  | some cfg, some (r, _) =>
+    match npFlat { cfg with fuel := segs + 2 } d segs (NpPath.ofPath proj2 r.p) with
+    | .ok l => "ok " ++ ",".intercalate (l.map showV3)
+    | .error e => showPErr e
+  | _, _ => "bad-op npflat"
+
+def runNpExt (paths : String) : String :=
+  match parseList "^" (fun o => (runOps o).map (fun r => NpPath.ofPath proj2 r.1.p)) paths with
+  | some (first :: rest) => showNp (npExtend vClose first rest)
+  | _ => "bad-op paths"
+
 def step (line : String) : String :=
   match line.splitOn "|" with
   | ["bez", deg, twin, d, segs, budget, cps] =>
@@ -249,6 +284,12 @@ def step (line : String) : String :=
     match parseV3s vs with
     | some vs => showPath (polyline2dLines vCloseRel zeroV vs (close == "1"))
     | none => "bad-op vertices"
+  | ["npstate", ops] => runNpState ops
+  | ["npflat", twin, d, segs, ops] =>
+    match parseRat d, segs.toNat? with
+    | some d, some segs => runNpFlat twin d segs ops
+    | _, _ => "bad-op"
+  | ["npext", paths] => runNpExt paths
   | ["edges", segs] =>
     match parseList "^" (fun o => (runOps o).map (fun r => r.1.p)) segs with
     | some ps => showPath (edgePath vClose zeroV ps)
